@@ -925,5 +925,44 @@ def operand_index(ctx):
     return res
 
 
-RULES = [operand_index, mirror_index, c04_chief_ray, c04_invariant, c01_media_chain, no_stale, lazy_def_use, location, formulas_and_degrees, identities,
+def invariant_zero(ctx):
+    """the spherical, coma and astigmatism contributions do not depend on the
+    Lagrange invariant (B carries 1/Inv, the image height h carries Inv); a
+    branch that zeroes B when the invariant is zero reports 'no spherical
+    aberration' for every on-axis-only set-up"""
+    P = ctx.P
+    res = Result('INVARIANT-ZERO', 'the third-order spherical term is the '
+                 'classical surface contribution also when the largest field '
+                 '(hence the invariant) is zero')
+    f = P.func('Aberrations._precalculations')
+    res.saw(f)
+    bad = []
+    for n in ast.walk(f.node):
+        if isinstance(n, ast.If) and isinstance(n.test, ast.Compare) and \
+                isinstance(n.test.ops[0], ast.Eq) and \
+                unparse(n.test.comparators[0]) in ('0', '0.0'):
+            for st in n.body:
+                if isinstance(st, ast.Assign) and \
+                        unparse(st.targets[0]).startswith('self._B[') and \
+                        unparse(st.value) in ('0', '0.0'):
+                    bad.append(st)
+    inv_in_hp = any(isinstance(st, ast.Assign) and
+                    unparse(st.targets[0]) == 'self._hp' and
+                    'self._inv' in unparse(st.value)
+                    for st in ast.walk(f.node))
+    if bad and inv_in_hp:
+        res.fail(ctx.finding(
+            'INVARIANT-ZERO', f, bad[0],
+            'when 2 n\' Inv == 0 the coefficient B is set to 0 instead of '
+            'letting the invariant cancel against h = Inv / (n\'_K u\'_K): '
+            'with an on-axis field only (AsphericSinglet sample, fields=[0]) '
+            'TSC, SC and S1 are reported as exactly 0 while the real '
+            'marginal-ray error is -3.4e-4',
+            construct='B zeroed when the invariant is zero'))
+    else:
+        res.ok('no zero special case for the invariant')
+    return res
+
+
+RULES = [invariant_zero, operand_index, mirror_index, c04_chief_ray, c04_invariant, c01_media_chain, no_stale, lazy_def_use, location, formulas_and_degrees, identities,
          operand_wrap]
